@@ -114,7 +114,7 @@ def tup(x):
     return x
 
 
-ALL_TASKS = ["beat", "onset"]
+ALL_TASKS = ["beat", "onset", "tempo", "key", "alignment"]
 
 
 def tasks():
